@@ -95,6 +95,13 @@ func convertAttrToField(attr slog.Attr) zapcore.Field {
 	case slog.KindUint64:
 		return zap.Uint64(attr.Key, attr.Value.Uint64())
 	case slog.KindGroup:
+		// Drop empty attributes and groups without content up front: the
+		// slog.Handler contract asks handlers to omit them, and a group's key
+		// cannot be taken back once it has been written.
+		attr.Value = slog.GroupValue(resolveGroup(attr.Value.Group())...)
+		if len(attr.Value.Group()) == 0 {
+			return zap.Skip()
+		}
 		if attr.Key == "" {
 			// Inlines recursively.
 			return zap.Inline(groupObject(attr.Value.Group()))
@@ -111,6 +118,28 @@ func convertAttrToField(attr slog.Attr) zapcore.Field {
 	default:
 		return zap.Any(attr.Key, attr.Value.Any())
 	}
+}
+
+// resolveGroup returns the attributes of a group with LogValuers resolved
+// (once) and with empty attributes and groups without content removed,
+// recursively.
+func resolveGroup(attrs []slog.Attr) []slog.Attr {
+	out := make([]slog.Attr, 0, len(attrs))
+	for _, a := range attrs {
+		if a.Equal(slog.Attr{}) {
+			continue
+		}
+		a.Value = a.Value.Resolve()
+		if a.Value.Kind() == slog.KindGroup {
+			sub := resolveGroup(a.Value.Group())
+			if len(sub) == 0 {
+				continue
+			}
+			a.Value = slog.GroupValue(sub...)
+		}
+		out = append(out, a)
+	}
+	return out
 }
 
 // convertSlogLevel maps slog Levels to zap Levels.
